@@ -739,7 +739,14 @@ Definition call_builtin (c : cfg) (b : builtin) (args : list value) (lua : bool)
                   | Some s, Some z => if z <? 10000 then ret [VStr (str_rep s z)] else inr (FUnsupported 8)
                   | _, _ => badarg
                   end
-      | _ :: _ :: _ :: _ => inr (FUnsupported 9)
+      | v :: n :: sep :: _ =>
+          match str_arg v, int_arg n, (match sep with VNil => Some [] | _ => str_arg sep end) with
+          | Some s, Some z, Some sp =>
+              if z <? 10000 then
+                ret [VStr (if z <=? 0 then [] else s ++ str_rep (sp ++ s) (z - 1))]
+              else inr (FUnsupported 8)
+          | _, _, _ => badarg
+          end
       | _ => badarg
       end
   | BStrByte =>
